@@ -33,22 +33,28 @@ pub fn fnv(s: &str) -> u64 {
 }
 
 /// Lean model driver (line protocol: one JSON request per line, one JSON answer per line).
-pub struct Driver { child: Child, stdin: ChildStdin, stdout: BufReader<ChildStdout>, pub requests: u64 }
+pub struct Driver { child: Child, stdin: ChildStdin, stdout: BufReader<ChildStdout>, pub requests: u64, pub dead: bool }
 impl Driver {
     pub fn spawn(path: &str) -> Driver {
         let mut child = Command::new(path).stdin(Stdio::piped()).stdout(Stdio::piped()).spawn()
             .unwrap_or_else(|e| panic!("cannot start model driver {path}: {e}"));
         let stdin = child.stdin.take().unwrap();
         let stdout = BufReader::new(child.stdout.take().unwrap());
-        Driver { child, stdin, stdout, requests: 0 }
+        Driver { child, stdin, stdout, requests: 0, dead: false }
     }
+    /// One request, one answer.  When the driver is not available (the model did not build: bin/check passes a
+    /// stub and reports the broken obligation itself) every request is answered `unmodelled`, so that the direct
+    /// oracles still run and the search for a failing input goes on without the model.
     pub fn ask(&mut self, req: &Value) -> Value {
+        if self.dead { return json!({"unmodelled": "model driver unavailable"}); }
         let line = serde_json::to_string(req).unwrap();
-        self.stdin.write_all(line.as_bytes()).unwrap();
-        self.stdin.write_all(b"\n").unwrap();
-        self.stdin.flush().unwrap();
+        let sent = self.stdin.write_all(line.as_bytes()).and_then(|_| self.stdin.write_all(b"\n")).and_then(|_| self.stdin.flush());
         let mut resp = String::new();
-        self.stdout.read_line(&mut resp).expect("model driver died");
+        let got = match sent { Ok(()) => self.stdout.read_line(&mut resp).unwrap_or(0), Err(_) => 0 };
+        if got == 0 {
+            if self.requests == 0 { self.dead = true; eprintln!("model driver unavailable: correspondence skipped, direct oracles only"); return json!({"unmodelled": "model driver unavailable"}); }
+            panic!("model driver died after {} requests", self.requests);
+        }
         self.requests += 1;
         serde_json::from_str(&resp).unwrap_or_else(|e| json!({"protocol_error": format!("{e}: {resp}")}))
     }
